@@ -257,6 +257,51 @@ func PopulateStructFields(m map[string]any, data any) {
 			}
 		}
 	}
+
+	// Fields promoted from embedded structs are fields of the root as well:
+	// Lookup finds them by their Go name, and expressions must see the same
+	// names. The struct's own fields, added above, shadow promoted ones.
+	for i := range rt.NumField() {
+		if f := rt.Field(i); f.Anonymous && f.IsExported() {
+			populatePromotedFields(m, rv.Field(i))
+		}
+	}
+}
+
+// populatePromotedFields adds the exported fields of an embedded struct (or
+// non-nil pointer to one) under their Go names, unless the name is bound already.
+func populatePromotedFields(m map[string]any, ev reflect.Value) {
+	for ev.Kind() == reflect.Ptr {
+		if ev.IsNil() {
+			return
+		}
+		ev = ev.Elem()
+	}
+	if ev.Kind() != reflect.Struct {
+		return
+	}
+	et := ev.Type()
+	for i := range et.NumField() {
+		f := et.Field(i)
+		if !f.IsExported() {
+			continue
+		}
+		if _, bound := m[f.Name]; bound || f.Anonymous {
+			continue
+		}
+		fv := ev.Field(i)
+		fieldValue := fv.Interface()
+		if fv.Kind() == reflect.Struct || (fv.Kind() == reflect.Ptr && fv.Type().Elem().Kind() == reflect.Struct) {
+			fieldValue = StructToMap(fieldValue)
+		}
+		m[f.Name] = fieldValue
+	}
+	// deeper levels last: a shallower field shadows a deeper one of the same name
+	for i := range et.NumField() {
+		if f := et.Field(i); f.Anonymous && f.IsExported() {
+			populatePromotedFields(m, ev.Field(i))
+		}
+	}
 }
 
 // IsSlice reports whether v is a slice or array.
